@@ -2399,44 +2399,41 @@ func (c *ChannelStateDB) AdvanceCommitChainTail(channel *OpenChannel,
 		}
 
 		// Persist the unsigned acked updates that are not included
-		// in their new commitment.
+		// in their new commitment. The key is absent until our first
+		// revocation has been stored (and for nodes that are
+		// upgrading); there is nothing to filter then, but the local
+		// updates below must still be persisted.
 		updateBytes := chanBucket.Get(unsignedAckedUpdatesKey)
-		if updateBytes == nil {
-			// This shouldn't normally happen as we always store
-			// the number of updates, but could still be
-			// encountered by nodes that are upgrading.
-			newRemoteCommit = &newCommit.Commitment
-			return nil
-		}
-
-		r := bytes.NewReader(updateBytes)
-		unsignedUpdates, err := deserializeLogUpdates(r)
-		if err != nil {
-			return err
-		}
-
-		var validUpdates []LogUpdate
-		for _, upd := range unsignedUpdates {
-			lIdx := upd.LogIndex
-
-			// Filter for updates that are not on the remote
-			// commitment.
-			if lIdx >= newCommit.Commitment.RemoteLogIndex {
-				validUpdates = append(validUpdates, upd)
+		if updateBytes != nil {
+			r := bytes.NewReader(updateBytes)
+			unsignedUpdates, err := deserializeLogUpdates(r)
+			if err != nil {
+				return err
 			}
-		}
 
-		var b bytes.Buffer
-		err = serializeLogUpdates(&b, validUpdates)
-		if err != nil {
-			return fmt.Errorf("unable to serialize log updates: %w",
-				err)
-		}
+			var validUpdates []LogUpdate
+			for _, upd := range unsignedUpdates {
+				lIdx := upd.LogIndex
 
-		err = chanBucket.Put(unsignedAckedUpdatesKey, b.Bytes())
-		if err != nil {
-			return fmt.Errorf("unable to store under "+
-				"unsignedAckedUpdatesKey: %w", err)
+				// Filter for updates that are not on the
+				// remote commitment.
+				if lIdx >= newCommit.Commitment.RemoteLogIndex {
+					validUpdates = append(validUpdates, upd)
+				}
+			}
+
+			var b bytes.Buffer
+			err = serializeLogUpdates(&b, validUpdates)
+			if err != nil {
+				return fmt.Errorf("unable to serialize log "+
+					"updates: %w", err)
+			}
+
+			err = chanBucket.Put(unsignedAckedUpdatesKey, b.Bytes())
+			if err != nil {
+				return fmt.Errorf("unable to store under "+
+					"unsignedAckedUpdatesKey: %w", err)
+			}
 		}
 
 		// Persist the local updates the peer hasn't yet signed so they
